@@ -209,6 +209,7 @@ func c02Rules(c *Ctx) {
 	ruleOperandOnce(c, []string{"place_ops.go", "place_set.go", "place_shifts.go", "place_set_value.go", "var_ops.go", "var_set.go", "var_shifts.go", "var_set_value.go"}, "E2-once")
 	ruleIncDec(c)
 	ruleIntsGuard(c, "fast", "A4-ints-guard")
+	ruleNoCellReplacement(c, []string{"var_set.go", "var_set_value.go", "var_ops.go", "var_shifts.go", "place_set.go", "place_ops.go", "place_shifts.go", "place_set_value.go"}, "V1-no-cell-replacement")
 	ruleAccessorFiles(c, "fast", c02Files, "A2-accessor")
 	c.Floor("U-uniform", 2400)
 	c.Floor("A3-depth", 1900)
@@ -246,4 +247,98 @@ func init() {
 
 func init() {
 	register(&PropDef{ID: "X04", Title: "dev: ints guard", Rules: []func(*Ctx){func(c *Ctx) { ruleIntsGuard(c, "fast", "A4-ints-guard") }}})
+}
+
+func init() {
+	register(&PropDef{ID: "X05", Title: "dev: frames", Rules: []func(*Ctx){func(c *Ctx) {
+		ruleMarkBeforeEscape(c, "fast", "M1-mark-before-escape")
+		ruleNewFreePairing(c, "fast", "N1-new-free")
+		ruleInteriorPointers(c, "fast", "Q1-interior-pointer")
+		for _, f := range []string{"Pool", "PoolSize"} {
+			ruleOwnership(c, "O1-pool-owner", "fast", "Run", f, nil, "")
+		}
+		ruleOwnership(c, "O2-usedbyclosure-owner", "fast", "Env", "UsedByClosure", nil, "")
+		ruleOwnership(c, "O3-ints-owner", "fast", "Env", "Ints", nil, "")
+		ruleOwnership(c, "O3-intaddr-owner", "fast", "Env", "IntAddressTaken", nil, "")
+	}}})
+}
+
+// ---------------------------------------------------------------- C06, C14
+
+var c06Files = []string{"function.go", "call.go", "call0ret1.go", "call1ret1.go", "call2ret1.go", "callnret0.go", "callnret1.go", "call_variadic.go", "call_ellipsis.go", "call_multivalue.go",
+	"func0ret0.go", "func0ret1.go", "func1ret0.go", "func1ret1.go", "func2ret0.go", "address.go"}
+
+func poolOwnership(c *Ctx) {
+	ruleOwnership(c, "O1-pool-owner", "fast", "Run", "Pool", []string{"fast.newEnv#*", "fast.NewEnv#*", "fast.newEnv4Func#*", "fast.Env.freeEnv#*"}, "the frame pool is private to the allocator")
+	ruleOwnership(c, "O1-pool-owner", "fast", "Run", "PoolSize", []string{"fast.newEnv", "fast.NewEnv", "fast.newEnv4Func", "fast.Env.freeEnv"}, "the frame pool is private to the allocator")
+}
+
+func init() {
+	register(&PropDef{
+		ID:    "C06",
+		Title: "Function calls and closures behave as in Go regardless of frame recycling",
+		Explanation: "Decided: M1 every function literal that captures an *Env bound by an enclosing literal and is not invoked on the spot (616 today) is preceded by thatEnv.MarkUsedByClosure(), so the captured frame chain is never recycled; " +
+			"N1 every frame obtained with newEnv4Func is released with freeEnv4Func on the same variable in the same block, with no return in between and no slot access after release; Q1 every pointer &E.Ints[i] that leaves its expression is preceded by E.IntAddressTaken = true on the same frame; " +
+			"FE1 freeEnv returns early for UsedByClosure frames and drops Ints of IntAddressTaken frames before pooling; O1/O2 Run.Pool, Run.PoolSize and Env.UsedByClosure are written only by the allocator / MarkUsedByClosure; " +
+			"U sibling uniformity and A3 depth of the fetched function variable and A2 accessor category over the call*ret*/func*ret* specialisations (argument i stored to slot i with the storage of its kind, result read from the result slot). " +
+			"Not decided: variadic packing, multiple results through reflect, recursion depth, that UsedByClosure is sufficient for every escape route (method values).",
+		Assumptions: []string{"a frame is reachable after its call only through closures created in literals over it or through &Ints pointers", "reflect.MakeFunc / ValueOf retain the closure they are given"},
+		Rules: []func(*Ctx){func(c *Ctx) {
+			ruleMarkBeforeEscape(c, "fast", "M1-mark-before-escape")
+			ruleNewFreePairing(c, "fast", "N1-new-free")
+			ruleInteriorPointers(c, "fast", "Q1-interior-pointer")
+			ruleFreeEnvStructure(c)
+			poolOwnership(c)
+			ruleOwnership(c, "O2-usedbyclosure-owner", "fast", "Env", "UsedByClosure", []string{"fast.Env.MarkUsedByClosure", "fast.New", "fast.New#lit", "fast.CompGlobals.NewImport#lit"}, "only the marking walk sets the flag; top-level environments are created marked")
+			ruleUniformity(c, "fast", c06Files, "U-uniform")
+			ruleDepth(c, "fast", c06Files, "A3-depth", "A4-storage")
+			ruleAccessorFiles(c, "fast", c06Files, "A2-accessor")
+			c.Floor("M1-mark-before-escape", 370)
+			c.Floor("N1-new-free", 370)
+			c.Floor("Q1-interior-pointer", 60)
+			c.Floor("U-uniform", 1500)
+			c.Floor("A3-depth", 150)
+		}},
+		Mutants: []Mutant{
+			{Name: "mark-dropped-uint8-bool", File: "fast/func1ret1.go", Old: "\n\t\t\t\tenv.MarkUsedByClosure()\n\t\t\t\treturn xr.ValueOf(func(arg0 uint8,\n\n\t\t\t\t) (ret0 bool,", New: "\n\t\t\t\treturn xr.ValueOf(func(arg0 uint8,\n\n\t\t\t\t) (ret0 bool,", Canary: true},
+			{Name: "free-dropped", File: "fast/func0ret1.go", Old: "env.freeEnv4Func()", New: "_ = env", Nth: 3, Canary: true},
+			{Name: "intaddress-mark-before-walk", File: "fast/address.go", Old: "\t\t\t\tfor i := 3; i < upn; i++ {\n\t\t\t\t\tenv = env.Outer\n\t\t\t\t}\n\n\t\t\t\tenv.IntAddressTaken = true\n\t\t\t\treturn (*float64)", New: "\t\t\t\tenv.IntAddressTaken = true\n\t\t\t\tfor i := 3; i < upn; i++ {\n\t\t\t\t\tenv = env.Outer\n\t\t\t\t}\n\n\t\t\t\treturn (*float64)"},
+			{Name: "call0ret1-string-depth2", File: "fast/call0ret1.go", Old: "fun := env.Outer.Outer.Vals[funindex].Interface().(func() string)", New: "fun := env.Outer.Vals[funindex].Interface().(func() string)"},
+			{Name: "freeenv-ignores-closure-flag", File: "fast/compile.go", Old: "\tif env.UsedByClosure {\n\t\t// output.Debugf(\"freeEnv: used by closure, cannot reuse: %p %+v\", env, env)\n\t\treturn\n\t}", New: "\tif env.UsedByClosure && env.Outer == nil {\n\t\treturn\n\t}"},
+			{Name: "result-read-after-free", File: "fast/func0ret1.go", Old: "ret0 = *(*int)(unsafe.Pointer(&env.Ints[indexes[0]]))\n\n\t\t\t\tenv.freeEnv4Func()", New: "env.freeEnv4Func()\n\t\t\t\tret0 = *(*int)(unsafe.Pointer(&env.Ints[indexes[0]]))\n"},
+		},
+	})
+	register(&PropDef{
+		ID:    "C14",
+		Title: "REPL-style evaluation, one top-level statement at a time, matches in-order Go",
+		Explanation: "Decided (the stable-address clause: a pointer obtained in one evaluation keeps aliasing its variable in every later one): O3 the slot array Env.Ints is (re)assigned only by newEnv, NewEnv, newEnv4Func, freeEnv and prepareEnv; PE1 prepareEnv installs a new array only after the IntAddressTaken error check and publishes cap(Ints) as IntBindMax when an address was taken; " +
+			"NB1 a variable becomes an unboxed IntBind only under IntBindMax == 0 || IntBindNum < IntBindMax; Q1 every &E.Ints[i] that leaves its expression (all of package fast, including imported interpreted packages) is preceded by E.IntAddressTaken = true on the same frame; A4b every function that addresses a variable's unboxed slot is entered only for IntBind variables; V0 no &E.Vals[i] exists (boxed cells are addressed through reflect, so Vals may grow); V1 assignment code stores into a boxed cell and never replaces it; A3/A4/A5/A6 on the variable-assignment specialisations (the boxed arms are reached mostly by REPL histories). " +
+			"Not decided: that each evaluation sees the effects of all earlier ones (run-time state), the two-slot complex128 arithmetic on IntBindMax.",
+		Assumptions: []string{"reflect.Value.Addr() of a boxed cell does not point into Env.Vals", "Go's append/make semantics"},
+		Rules: []func(*Ctx){func(c *Ctx) {
+			ruleOwnership(c, "O3-ints-owner", "fast", "Env", "Ints", []string{"fast.newEnv", "fast.NewEnv", "fast.newEnv4Func", "fast.Env.freeEnv", "fast.Interp.prepareEnv", "*#elem"}, "only the allocator and the REPL preparation may move the slot array")
+			ruleOwnership(c, "O3-intaddr-owner", "fast", "Env", "IntAddressTaken", []string{"fast.Var.Address", "fast.Env.freeEnv", "fast.Import.intPlace"}, "set where an interior pointer is handed out, cleared only when the array is dropped")
+			rulePrepareEnv(c)
+			ruleNewBindMax(c)
+			ruleInteriorPointers(c, "fast", "Q1-interior-pointer")
+			ruleIntsGuard(c, "fast", "A4-ints-guard")
+			ruleNoValsAddress(c, "fast", "V0-no-vals-address")
+			// boxed-storage arms are reached mostly through REPL histories (late declarations after an
+			// address was taken): their operator and storage anchors belong to this property too
+			opOf := ruleDispatchTables(c, "fast", []string{"fast.Comp.setVar"}, "A5")
+			ruleOperatorAnchor(c, "fast", opOf, "A5-operator", "A6-order", nil)
+			ruleDepth(c, "fast", []string{"var_ops.go", "var_set.go", "var_shifts.go", "var_set_value.go", "identifier.go", "address.go"}, "A3-depth", "A4-storage")
+			ruleNoCellReplacement(c, []string{"var_set.go", "var_set_value.go", "var_ops.go", "var_shifts.go", "place_set.go", "place_ops.go", "place_shifts.go", "place_set_value.go"}, "V1-no-cell-replacement")
+			c.Floor("Q1-interior-pointer", 60)
+			c.Floor("A4-ints-guard", 18)
+		}},
+		Mutants: []Mutant{
+			{Name: "import-mark-dropped", File: "fast/import.go", Old: "\timpenv.IntAddressTaken = true\n", New: "", Canary: true},
+			{Name: "prepareenv-realloc-unchecked", File: "fast/repl.go", Old: "\t\tif env.IntAddressTaken {\n\t\t\tc.Errorf(\"internal error: attempt to reallocate Env.Ints[] after one of its addresses was taken\")\n\t\t}\n", New: "", Canary: true},
+			{Name: "newbind-ignores-max", File: "fast/declaration.go", Old: "if (c.IntBindMax == 0 || c.IntBindNum < c.IntBindMax) &&", New: "if (c.IntBindMax == 0 || c.IntBindNum <= c.IntBindMax) &&"},
+			{Name: "address-mark-on-wrong-frame", File: "fast/address.go", Old: "\t\t\t\tenv = env.\n\t\t\t\t\tOuter\n\n\t\t\t\tenv.IntAddressTaken = true\n\t\t\t\treturn (*int)", New: "\t\t\t\tenv.IntAddressTaken = true\n\t\t\t\tenv = env.\n\t\t\t\t\tOuter\n\n\t\t\t\treturn (*int)"},
+			{Name: "quopow2-guard-dropped", File: "fast/var_ops.go", Old: "\tif va.Desc.Class() != IntBind {\n\t\t// boxed variable: the specialisations below address Env.Ints directly\n\t\treturn nil\n\t}\n", New: ""},
+			{Name: "new-ints-writer", File: "fast/compile.go", Old: "\trun.CurrEnv = env.Outer\n\tenv.freeEnv(run)", New: "\trun.CurrEnv = env.Outer\n\tenv.Ints = env.Ints[:0:0]\n\tenv.freeEnv(run)"},
+		},
+	})
 }
